@@ -23,7 +23,9 @@ class C27(Spec):
                   "reorganisation changes the chain (S-C27c), a tampered body under the genuine header poisons the hash "
                   "(S-C27a/b, orphan variant), the rejected body stays served under the hash; partial: no poisoning for the "
                   "download path on a tip extension. Tie: every header-field and body mutation of minted valid blocks, as tip "
-                  "extension / side branch / orphan / last block of a heavier branch, broadcast or sync or download, then the "
+                  "extension / side branch / orphan / last block of a heavier branch, broadcast or sync or download, with none / "
+                  "some / ALL of the block's transactions in the receiving node's mempool, the duplicate-tail mutant minted "
+                  "with the tx and state roots its body really gives, optionally a node restart, then the "
                   "genuine block; ProcessBlock result, tip, height index, bodies by height and by hash, TDs, orphan pool and "
                   "tx index compared with the Lean driver; the property predicates evaluated on the implementation.")
     level_note = ("validity (signatures, duplicates, tx root, state root, consensus check) enters the model as oracle inputs "
@@ -33,7 +35,8 @@ class C27(Spec):
     assumptions = (
         "PreExecBlock's checks are modelled as an ordered list of oracle inputs (Model/C27.lean preExec); the oracle inputs "
         "of every generated case are recomputed from the real transactions/blocks by the harness",
-        "index cache (102400), orphan pool limit/expiry not reached; no restart; EnableBestBlockCmp off",
+        "index cache (102400), orphan pool limit/expiry not reached; EnableBestBlockCmp off; restart modelled for chains "
+        "shorter than InitBlockNum (index rebuilt from the main chain, orphan pool / error log / mempool empty)",
         "after index.DelNode (download path) no further descendants of the deleted node are delivered in the tie",
         "difficulty.CalcWork behaves as C20.calcWork (tied by C20)",
     )
